@@ -456,19 +456,14 @@ include hq in
 theorem loc_call (fn : String) (hts : fn ≠ "timestamp") (args : List (Expr V)) (hlen : args.length ≤ 1)
     (hd : isDistributive (some (.call fn args)) = true) (hargs : ∀ a ∈ args, Loc c a) : Loc c (.call fn args) := by
   simp only [isDistributive, Bool.and_eq_true, Bool.not_eq_true'] at hd
-  obtain ⟨⟨hsc, hnl⟩, _⟩ := hd
+  obtain ⟨⟨⟨hsc, hnl⟩, _⟩, hany⟩ := hd
   have hn_time : fn ≠ "time" := by intro h; subst h; revert hsc; decide
   have hn_pi : fn ≠ "pi" := by intro h; subst h; revert hsc; decide
   have hn_scalar : fn ≠ "scalar" := by intro h; subst h; revert hsc; decide
   have hn_vector : fn ≠ "vector" := by intro h; subst h; revert hnl; decide
-  match args, hlen, hargs with
-  | [], _, _ =>
-    apply loc_of_error c _ .unsupported
-    intro t st
-    rw [eval] <;> first | rfl | (intro hh; first | exact hn_time hh | exact hn_pi hh) | skip
-    all_goals (intros; first | contradiction | (rename_i hh; cases hh))
-    all_goals (first | contradiction | skip)
-  | [a], _, hargs =>
+  match args, hlen, hargs, hany with
+  | [], _, _, hany => simp at hany
+  | [a], _, hargs, _ =>
     cases hma : isMsel a with
     | true =>
       cases a with
@@ -484,7 +479,7 @@ theorem loc_call (fn : String) (hts : fn ≠ "timestamp") (args : List (Expr V))
         unfold call1
         have hs' : simpleFns.contains fn = false := by simpa using hs
         simp only [hn_scalar, hn_vector, hs', if_false, Bool.false_eq_true]
-  | _ :: _ :: _, hlen, _ => simp at hlen
+  | _ :: _ :: _, hlen, _, _ => simp at hlen
 
 /-- the statement carried through the traversal of an expression ... -/
 def M2 (par : Option (Expr V)) (e : Expr V) : Prop :=
